@@ -99,8 +99,10 @@ Put(i, n, v) ==
     /\ mtime' = IF TsAware(i) THEN [mtime EXCEPT ![n] = mtime[n] + 1] ELSE mtime
     /\ hist' = Append(hist, [op |-> "put", i |-> i, n |-> n, v |-> v, mt |-> mtime'[n], obs |-> Observation(-1, cache, loads)])
     /\ UNCHANGED <<loads, cache, cacheOn, autoReload, clock>>
+\* deleting from the timestamp-aware loader what is currently cached from it is left out (what a later auto-reload
+\* does with a template whose file vanished is not stated); everything else may vanish
 Delete(i, n) ==
-    /\ i = 1 /\ content[i][n] # 0
+    /\ content[i][n] # 0 /\ (i = 2 => ~(cache[n].ver # 0 /\ cache[n].from = 2))
     /\ content' = [content EXCEPT ![i][n] = 0]
     /\ hist' = Append(hist, [op |-> "delete", i |-> i, n |-> n, obs |-> Observation(-1, cache, loads)])
     /\ UNCHANGED <<mtime, loads, cache, cacheOn, autoReload, clock>>
@@ -124,7 +126,7 @@ Next ==
     /\ \/ \E n \in Names : Render(n)
        \/ \E n \in RegNames : \E v \in Vers : Register(n, v)
        \/ \E i \in Loaders : \E n \in Names : \E v \in Vers : Put(i, n, v)
-       \/ \E n \in Names : Delete(1, n)
+       \/ \E i \in Loaders : \E n \in Names : Delete(i, n)
        \/ \E b \in BOOLEAN : SetCache(b) \/ SetAutoReload(b) \/ SetDevMode(b)
 Spec == Init /\ [][Next]_vars
 
